@@ -70,7 +70,17 @@ PoolM == <<                      \* mid-size: subtree moves and attribute churn,
   N("attr",    1, "x", "create", <<>>,     "x")      \* 8
 >>
 
-Pool == CASE PoolName = "s" -> PoolS [] PoolName = "q" -> PoolQ [] PoolName = "m" -> PoolM [] PoolName = "t" -> PoolT
+PoolN == <<                      \* subtree moves (a > b), attribute churn, a factory-made element; no foreign document
+  N("doc",     1, "",  "doc",    <<>>,     "<r><a><b/></a>t</r>"),
+  N("elem",    1, "",  "parsed", <<1>>,    ""),      \* 2 r
+  N("elem",    1, "",  "parsed", <<1, 1>>, ""),      \* 3 a
+  N("elem",    1, "",  "parsed", <<1, 1, 1>>, ""),   \* 4 b
+  N("text",    1, "",  "parsed", <<1, 2>>, ""),      \* 5 t
+  N("elem",    1, "",  "create", <<>>,     "e"),     \* 6
+  N("attr",    1, "x", "create", <<>>,     "x")      \* 7
+>>
+
+Pool == CASE PoolName = "n" -> PoolN [] PoolName = "s" -> PoolS [] PoolName = "q" -> PoolQ [] PoolName = "m" -> PoolM [] PoolName = "t" -> PoolT
 
 P == [kind  |-> [i \in DOMAIN Pool |-> Pool[i].kind],
       owner |-> [i \in DOMAIN Pool |-> Pool[i].owner],
